@@ -17,7 +17,7 @@ CLASSES = ['positive', 'negative', 'mixed', 'constant', 'tiny', 'huge']
 def cfg(shapes, fmts, maxinv, variant='design', emit=False):
     c = 'INIT Init\nNEXT Next\nCHECK_DEADLOCK FALSE\nCONSTANTS\n MaxInvalid = %d\n Variant = "%s"\n EmitOn = %s\n' % (maxinv, variant, 'TRUE' if emit else 'FALSE')
     c += 'INVARIANT Emit\n' if emit else 'INVARIANT RoundTrip\nINVARIANT NoSilentTruncation\n'
-    return c, dict(Shapes=D.tup(shapes), Fmts='{%s}' % ', '.join('"%s"' % f for f in fmts))
+    return c, dict(Shapes=D.tup(shapes), Fmts='{%s}' % ', '.join('"%s"' % f for f in fmts), Origins='{"prysm", "instrument"}')
 
 
 def make_map(shape, invalid, cls, np):
@@ -108,10 +108,31 @@ def do_read(fmt, path, np):
     return out
 
 
-def second_generation(fmt, path, a, dx, wvl, np):
+ZYGO_HEADER = 834
+
+
+def as_instrument(path, frame=(3, 4)):
+    """Turn a prysm-written Zygo file into one laid out the way the instrument writes it: an intensity frame (ac_height x
+    ac_width uint16 samples, one bucket) between the header and the phase block, declared in the header's ac_* fields."""
+    import struct
+    raw = bytearray(open(path, 'rb').read())
+    ih, iw = frame
+    struct.pack_into('>H', raw, 52, iw)               # ac_width
+    struct.pack_into('>H', raw, 54, ih)               # ac_height
+    struct.pack_into('>H', raw, 56, 1)                # ac_n_buckets
+    struct.pack_into('>I', raw, 60, iw * ih * 2)      # ac_n_bytes
+    intens = b''.join(struct.pack('>H', 100 * k) for k in range(iw * ih))
+    with open(path, 'wb') as f:
+        f.write(bytes(raw[:ZYGO_HEADER]) + intens + bytes(raw[ZYGO_HEADER:]))
+    return iw * ih * 2
+
+
+def second_generation(fmt, path, a, dx, wvl, np, instrument=False):
     """Write, read back, re-calibrate the object that came back to a new spacing, write again.  Returns the new dx."""
     from prysm import io as pio
     do_write(fmt, path, a, dx, wvl, np)
+    if instrument:
+        as_instrument(path)
     new_dx = dx * 3.0
     if fmt == 'igram':
         from prysm.interferogram import Interferogram
@@ -156,12 +177,18 @@ def replay(rec, ctx, np, tmp, classes, fmts):
             site = {'zygo': 'write_zygo_dat->read_zygo_dat', 'igram': 'Interferogram.save_zygo_dat->from_zygo_dat', 'codev': 'write_codev_gridint->read_codev_gridint'}[fmt]
             shp_cls = 'sq' if shape[0] == shape[1] else ('1xN' if shape[0] == 1 else ('Nx1' if shape[1] == 1 else 'nonsq'))
             try:
+                instrument = rec.get('origin') == 'instrument'
+                extra_bytes = 0
                 if rec.get('gen', 1) == 2:
-                    dx = second_generation(fmt, path, a, dx, wvl, np)
+                    dx = second_generation(fmt, path, a, dx, wvl, np, instrument=instrument)
                     if intact:
                         site += ':resaved'
                 else:
                     do_write(fmt, path, a, dx, wvl, np)
+                    if instrument:
+                        extra_bytes = as_instrument(path)
+                if instrument:
+                    site += ':instrument-file'
             except Exception as ex:
                 ctx.fail('File:%s:write-raised:%s:%s' % (site, cls, shp_cls), 'shape=%s invalid=%s: %s: %s' % (shape, invalid, type(ex).__name__, ex), rec)
                 ctx.replayed(1, key=(fmt, shape, tuple(invalid), cls, keep, partial))
@@ -170,6 +197,7 @@ def replay(rec, ctx, np, tmp, classes, fmts):
                 off = cut_offset(fmt, path, keep, partial, n)
                 if off is None:
                     continue
+                off += extra_bytes
                 with open(path, 'rb') as f:
                     raw = f.read()
                 with open(path, 'wb') as f:
@@ -243,7 +271,7 @@ def run(ctx, replay_path=None, selftest=False, replay=None):
             return
         c, d = cfg(shapes, ['zygo', 'codev'], maxinv)
         ctx.tlc('InstrumentFile', c, defs=d, name='design', emit=False, require_actions=('Write', 'DoTruncate', 'Read'))
-        for variant in ('flatflip', 'swapdims', 'silenttoken'):
+        for variant in ('flatflip', 'swapdims', 'silenttoken', 'stale-ac'):
             c, d = cfg([(2, 3)], ['zygo', 'codev'], 0, variant=variant)
             ctx.tlc('InstrumentFile', c, defs=d, name='pinned-' + variant, emit=False, must_hold=False, count=False)
         c, d = cfg(shapes, ['zygo', 'codev'], maxinv, emit=True)
